@@ -8,6 +8,7 @@ every step against a small reference model of activity times and request states.
 from hypothesis import strategies as st
 
 from .. import case as C
+from .. import schedules as S
 from .. import simnet, simsched
 from ..case import s2b
 from ..runner import derive_seed, hyp_run
@@ -75,7 +76,7 @@ def validate(case):
     if not isinstance(ops, list) or len(ops) > 60:
         raise C.CaseInvalid("ops")
     for op in ops:
-        if not isinstance(op, list) or not op or op[0] not in ("connect", "send", "partial", "reads", "stalls", "closes", "finish", "clock"):
+        if not isinstance(op, list) or not op or op[0] not in ("connect", "send", "partial", "reads", "stalls", "closes", "finish", "clock", "burst"):
             raise C.CaseInvalid("op")
         if op[0] == "clock" and (len(op) != 2 or not isinstance(op[1], (int, float)) or not (0 < op[1] <= 1000)):
             raise C.CaseInvalid("clock")
@@ -93,7 +94,13 @@ def run_history(case):
     limit = cfg.get("connection_limit", 100)
     timeout = cfg.get("channel_timeout", 120)
     cleanup = cfg.get("cleanup_interval", 30)
-    sched = simsched.Scheduler(simsched.Source(), infinite_timeouts=False, step_limit=200000, auto_timers=0)
+    try:
+        source = S.make_source(case.get("schedule"))
+    except Exception:
+        raise C.CaseInvalid("schedule")
+    if case.get("gran", "sync") not in ("sync", "line"):
+        raise C.CaseInvalid("gran")
+    sched = simsched.Scheduler(source, granularity=case.get("gran", "sync"), infinite_timeouts=False, step_limit=200000, auto_timers=0)
     app = App(sched)
     w = simnet.World(app, adj=cfg, sched=sched, nlisten=nl)
     fails = []
@@ -215,6 +222,17 @@ def run_history(case):
                 elif k == "closes":
                     s.in_eof = True
                     m["client_closed"] = True
+                settle()
+            elif k == "burst":
+                # every open, accepted, unstalled connection sends one request in the same instant: several workers finish at about the same time
+                for m in conns:
+                    s_ = m["sock"]
+                    if s_.closed or m["client_closed"] or m["stalled"] or m.get("half"):
+                        continue
+                    m["nreq"] += 1
+                    s_.inq.append(s2b("GET /c%d/r%d HTTP/1.1\r\nHost: h\r\n\r\n" % (conns.index(m), m["nreq"])))
+                    if m["accepted"]:
+                        m["la"] = w.clock.now
                 settle()
             elif k == "finish":
                 if app.blocked:
@@ -349,6 +367,19 @@ FIXED = [
 ]
 
 
+# histories in which several workers finish at about the same time and a stalled, idle connection has to be reaped afterwards: run under
+# sampled thread schedules (the reaping of such a connection travels through the wake-up pipe, i.e. depends on I/O-thread / worker timing)
+SCHED_FIXED = [
+    {"cfg": {"connection_limit": 100, "channel_timeout": 2, "cleanup_interval": 1, "threads": 2}, "capacity": 60,
+     "ops": [["connect", 0], ["connect", 0], ["connect", 0], ["stalls", 2], ["send", 2, False], ["burst"], ["burst"], ["burst"], ["burst"],
+             ["clock", 3], ["clock", 3], ["clock", 3]]},
+    {"cfg": {"connection_limit": 5, "channel_timeout": 2, "cleanup_interval": 1, "threads": 2},
+     "ops": [["connect", 0]] * 4 + [["burst"], ["burst"], ["clock", 3], ["clock", 3], ["connect", 0], ["burst"], ["clock", 1]]},
+    {"cfg": {"connection_limit": 100, "channel_timeout": 2, "cleanup_interval": 1, "threads": 2}, "capacity": 60,
+     "ops": [["connect", 0], ["connect", 0], ["send", 0, True], ["burst"], ["stalls", 1], ["burst"], ["clock", 3], ["clock", 3], ["finish"], ["burst"], ["clock", 3], ["clock", 3]]},
+]
+
+
 def short_histories():
     alpha = [["connect", 0], ["send", 0, False], ["send", 0, True], ["send", 1, True], ["closes", 0], ["finish"], ["clock", 3], ["clock", 200]]
     import itertools
@@ -359,6 +390,8 @@ def short_histories():
 
 def jobs(tier, seed):
     js = [{"kind": "fixed"}]
+    for i in range(len(SCHED_FIXED)):
+        js.append({"kind": "sched", "index": i, "n": 120 if tier == "quick" else 4000, "seed": derive_seed(seed, "c18s", i)})
     for sh in range(4):
         js.append({"kind": "short", "shard": sh, "nshards": 4})
     n = 450 if tier == "quick" else 6000
@@ -377,8 +410,16 @@ def run_job(job, col):
         col.record(case, fs, nontrivial=nt, labels=labels)
 
     if job["kind"] == "fixed":
-        for c in FIXED:
+        for c in FIXED + SCHED_FIXED:
             one(c)
+    elif job["kind"] == "sched":
+        cnt = [0]
+
+        def ones(spec):
+            cnt[0] += 1
+            one(dict(SCHED_FIXED[job["index"]], schedule=spec, gran="line" if cnt[0] % 2 else "sync"))
+
+        hyp_run(S.schedule_strategy(), ones, job["n"], job["seed"])
     elif job["kind"] == "short":
         for i, c in enumerate(short_histories()):
             if i % job["nshards"] == job["shard"]:
